@@ -1269,4 +1269,438 @@ example : AdmHist (ι := Nat) PhysPoint
 
 end nonvac
 
+/-! ### several models and their parameter objects: isolation
+
+`Homog.runM … none` is the code (a model built without parameters allocates its own object);
+`Homog.runM … (some d)` is the variant with ONE default object made at import time. -/
+
+section objects
+variable {ι : Type} [DecidableEq ι]
+variable (pw : α → α → α) (tiny big eps0 : α) (db : List ι)
+
+/-- every model holds a reference to an object that exists -/
+def WFStore (st : Store ι α) : Prop :=
+  ∀ mid pid : Nat, st.models[mid]? = some pid → pid < st.params.length
+
+theorem wf_init : WFStore (initStore eps0 none : Store ι α) := by
+  intro mid pid h; simp [initStore] at h
+
+theorem setAt_models (st : Store ι α) (pid : Nat) (s : Setting ι α) :
+    (setAt st pid s).models = st.models := by
+  unfold setAt; split <;> rfl
+
+theorem setAt_length (st : Store ι α) (pid : Nat) (s : Setting ι α) :
+    (setAt st pid s).params.length = st.params.length := by
+  unfold setAt; split <;> simp
+
+theorem setAt_get_ne (st : Store ι α) (pid q : Nat) (s : Setting ι α) (h : q ≠ pid) :
+    (setAt st pid s).params[q]? = st.params[q]? := by
+  unfold setAt; split
+  · simp [List.getElem?_set_ne (Ne.symm h)]
+  · rfl
+
+theorem setAt_get_self (st : Store ι α) (pid : Nat) (s : Setting ι α) :
+    (setAt st pid s).params[pid]? = (st.params[pid]?).map (applySetting s) := by
+  unfold setAt; split
+  · rename_i p hp
+    have hlt : pid < st.params.length := (List.getElem?_eq_some_iff.mp hp).1
+    simp [hp, List.getElem?_set_self hlt]
+  · rename_i hp; simp [hp]
+
+/-- the setting an operation applies to the parameters object `pid` (through a model that holds it,
+or directly), if any -/
+def addressed (st : Store ι α) (pid : Nat) : MOp ι α → Option (Setting ι α)
+  | .set mid s => if st.models[mid]? = some pid then some s else none
+  | .setP q s => if q = pid then some s else none
+  | _ => none
+
+/-- the objects and models that exist stay, with their identity -/
+theorem step_length_le (st : Store ι α) (op : MOp ι α) :
+    st.params.length ≤ (stepM pw tiny big eps0 db none st op).1.params.length ∧
+    st.models.length ≤ (stepM pw tiny big eps0 db none st op).1.models.length := by
+  cases op with
+  | newParams p => simp [stepM]
+  | newModel arg =>
+    cases arg with
+    | none => simp [stepM]
+    | some q => simp only [stepM]; split <;> simp
+  | set mid s =>
+    simp only [stepM]; split <;> simp [setAt_length, setAt_models]
+  | setP q s => simp [stepM, setAt_length, setAt_models]
+  | eval mid pts => simp [stepM]
+
+theorem step_models (st : Store ι α) (op : MOp ι α) (mid : Nat) (h : mid < st.models.length) :
+    (stepM pw tiny big eps0 db none st op).1.models[mid]? = st.models[mid]? := by
+  cases op with
+  | newParams p => simp [stepM]
+  | newModel arg =>
+    cases arg with
+    | none => simp [stepM, List.getElem?_append_left h]
+    | some q => simp only [stepM]; split <;> simp [List.getElem?_append_left h]
+  | set m s => simp only [stepM]; split <;> simp [setAt_models]
+  | setP q s => simp [stepM, setAt_models]
+  | eval m pts => simp [stepM]
+
+/-- **frame**: one operation changes the object `pid` only if it is addressed to it -/
+theorem step_params (st : Store ι α) (op : MOp ι α) (pid : Nat) (h : pid < st.params.length) :
+    (stepM pw tiny big eps0 db none st op).1.params[pid]?
+      = match addressed st pid op with
+        | some s => (st.params[pid]?).map (applySetting s)
+        | none => st.params[pid]? := by
+  cases op with
+  | newParams p => simp [stepM, addressed, List.getElem?_append_left h]
+  | newModel arg =>
+    cases arg with
+    | none => simp [stepM, addressed, List.getElem?_append_left h]
+    | some q => simp only [stepM, addressed]; split <;> rfl
+  | set m s =>
+    simp only [stepM, addressed]
+    cases hm : st.models[m]? with
+    | none => simp
+    | some q =>
+      by_cases hq : q = pid
+      · subst hq; simp [setAt_get_self]
+      · have : ¬ (some q = some pid) := by simpa using hq
+        simp [this, setAt_get_ne st q pid s (Ne.symm hq)]
+  | setP q s =>
+    simp only [stepM, addressed]
+    by_cases hq : q = pid
+    · subst hq; simp [setAt_get_self]
+    · simp [hq, setAt_get_ne st q pid s (Ne.symm hq)]
+  | eval m pts => simp [stepM, addressed]
+
+theorem run_length_le (st : Store ι α) (ops : List (MOp ι α)) :
+    st.params.length ≤ (runM pw tiny big eps0 db none st ops).1.params.length ∧
+    st.models.length ≤ (runM pw tiny big eps0 db none st ops).1.models.length := by
+  induction ops generalizing st with
+  | nil => simp [runM]
+  | cons op r ih =>
+    simp only [runM]
+    have h1 := step_length_le pw tiny big eps0 db st op
+    have h2 := ih (stepM pw tiny big eps0 db none st op).1
+    exact ⟨le_trans h1.1 h2.1, le_trans h1.2 h2.2⟩
+
+theorem run_models (st : Store ι α) (ops : List (MOp ι α)) (mid : Nat) (h : mid < st.models.length) :
+    (runM pw tiny big eps0 db none st ops).1.models[mid]? = st.models[mid]? := by
+  induction ops generalizing st with
+  | nil => simp [runM]
+  | cons op r ih =>
+    simp only [runM]
+    rw [ih _ (lt_of_lt_of_le h (step_length_le pw tiny big eps0 db st op).2)]
+    exact step_models pw tiny big eps0 db st op mid h
+
+/-- the settings a history applies to the object `pid`, in order -/
+def settingsFor : Store ι α → Nat → List (MOp ι α) → List (Setting ι α)
+  | _, _, [] => []
+  | st, pid, op :: r =>
+    (addressed st pid op).toList ++ settingsFor (stepM pw tiny big eps0 db none st op).1 pid r
+
+def applyAll (ss : List (Setting ι α)) (p : Params ι α) : Params ι α :=
+  ss.foldl (fun p s => applySetting s p) p
+
+theorem run_params (st : Store ι α) (ops : List (MOp ι α)) (pid : Nat) (h : pid < st.params.length) :
+    (runM pw tiny big eps0 db none st ops).1.params[pid]?
+      = (st.params[pid]?).map (applyAll (settingsFor pw tiny big eps0 db st pid ops)) := by
+  induction ops generalizing st with
+  | nil =>
+    simp only [runM, settingsFor]
+    cases hq : st.params[pid]? <;> simp [applyAll]
+  | cons op r ih =>
+    simp only [runM, settingsFor]
+    rw [ih _ (lt_of_lt_of_le h (step_length_le pw tiny big eps0 db st op).1)]
+    rw [step_params pw tiny big eps0 db st op pid h]
+    cases addressed st pid op with
+    | none => simp
+    | some s =>
+      cases st.params[pid]? with
+      | none => simp
+      | some p => simp [applyAll]
+
+/-- **isolation** (any history, any aliasing the user set up): what model `A` evaluates after the
+history is the evaluation under the state its parameters object had before, changed by exactly the
+settings the history addressed to THAT object, in order -/
+theorem isolation (st : Store ι α) (ops : List (MOp ι α)) (A pid : Nat) (p : Params ι α)
+    (hA : st.models[A]? = some pid) (hp : st.params[pid]? = some p) (pts : List (Point ι α)) :
+    evalModel pw tiny big db (runM pw tiny big eps0 db none st ops).1 A pts
+      = evalParams pw tiny big db (applyAll (settingsFor pw tiny big eps0 db st pid ops) p) pts := by
+  have hAl : A < st.models.length := (List.getElem?_eq_some_iff.mp hA).1
+  have hpl : pid < st.params.length := (List.getElem?_eq_some_iff.mp hp).1
+  unfold evalModel
+  rw [run_models pw tiny big eps0 db st ops A hAl, hA]
+  simp only
+  rw [run_params pw tiny big eps0 db st ops pid hpl, hp]
+  simp
+
+/-- the calls made ON model `A` -/
+def ownSettings (A : Nat) : List (MOp ι α) → List (Setting ι α)
+  | [] => []
+  | .set m s :: r => if m = A then s :: ownSettings A r else ownSettings A r
+  | _ :: r => ownSettings A r
+
+/-- the operation does not reach object `pid` from outside a model: nobody calls a setter on the
+object itself and nobody hands it to another model -/
+def NotHanded (pid : Nat) : MOp ι α → Prop
+  | .setP q _ => q ≠ pid
+  | .newModel (some q) => q ≠ pid
+  | _ => True
+
+/-- `A` is the only model that holds object `pid` -/
+def Sole (st : Store ι α) (pid A : Nat) : Prop := ∀ mid : Nat, st.models[mid]? = some pid → mid = A
+
+theorem sole_step (st : Store ι α) (op : MOp ι α) (pid A : Nat) (hs : Sole st pid A)
+    (hpl : pid < st.params.length) (hn : NotHanded pid op) :
+    Sole (stepM pw tiny big eps0 db none st op).1 pid A := by
+  intro mid hm
+  cases op with
+  | newParams p => exact hs mid (by simpa [stepM] using hm)
+  | newModel arg =>
+    cases arg with
+    | none =>
+      simp only [stepM] at hm
+      by_cases hlt : mid < st.models.length
+      · rw [List.getElem?_append_left hlt] at hm; exact hs mid hm
+      · rw [List.getElem?_append_right (not_lt.mp hlt)] at hm
+        have : st.params.length = pid := by
+          rcases Nat.eq_zero_or_pos (mid - st.models.length) with h0 | h0
+          · simpa [h0] using hm
+          · have : ([st.params.length] : List Nat)[mid - st.models.length]? = none := by
+              apply List.getElem?_eq_none_iff.mpr; simp; omega
+            rw [this] at hm; cases hm
+        omega
+    | some q =>
+      simp only [stepM] at hm
+      split at hm
+      · by_cases hlt : mid < st.models.length
+        · rw [List.getElem?_append_left hlt] at hm; exact hs mid hm
+        · rw [List.getElem?_append_right (not_lt.mp hlt)] at hm
+          have : q = pid := by
+            rcases Nat.eq_zero_or_pos (mid - st.models.length) with h0 | h0
+            · simpa [h0] using hm
+            · have : ([q] : List Nat)[mid - st.models.length]? = none := by
+                apply List.getElem?_eq_none_iff.mpr; simp; omega
+              rw [this] at hm; cases hm
+          exact absurd this hn
+      · exact hs mid hm
+  | set m s =>
+    simp only [stepM] at hm
+    split at hm
+    · rw [setAt_models] at hm; exact hs mid hm
+    · exact hs mid hm
+  | setP q s =>
+    simp only [stepM, setAt_models] at hm; exact hs mid hm
+  | eval m pts => exact hs mid (by simpa [stepM] using hm)
+
+theorem settingsFor_sole (st : Store ι α) (ops : List (MOp ι α)) (pid A : Nat) (hs : Sole st pid A)
+    (hA : st.models[A]? = some pid) (hpl : pid < st.params.length)
+    (hn : ∀ op ∈ ops, NotHanded pid op) :
+    settingsFor pw tiny big eps0 db st pid ops = ownSettings A ops := by
+  induction ops generalizing st with
+  | nil => simp [settingsFor, ownSettings]
+  | cons op r ih =>
+    have hAl : A < st.models.length := (List.getElem?_eq_some_iff.mp hA).1
+    have hop : NotHanded pid op := hn op (by simp)
+    have htail := ih (stepM pw tiny big eps0 db none st op).1
+      (sole_step pw tiny big eps0 db st op pid A hs hpl hop)
+      (by rw [step_models pw tiny big eps0 db st op A hAl]; exact hA)
+      (lt_of_lt_of_le hpl (step_length_le pw tiny big eps0 db st op).1)
+      (fun o ho => hn o (by simp [ho]))
+    simp only [settingsFor]
+    rw [htail]
+    cases op with
+    | newParams p => simp [addressed, ownSettings]
+    | newModel arg => simp [addressed, ownSettings]
+    | set m s =>
+      simp only [addressed, ownSettings]
+      by_cases hm : m = A
+      · subst hm; simp [hA]
+      · have : ¬ (st.models[m]? = some pid) := fun h => hm (hs m h)
+        simp [this, hm]
+    | setP q s =>
+      have : q ≠ pid := hop
+      simp [addressed, ownSettings, this]
+    | eval m pts => simp [addressed, ownSettings]
+
+/-- **isolation, by calls on the model**: as long as nobody reaches `A`'s parameters object from
+outside (no setter on the object itself, not handed to another model), what `A` evaluates depends
+only on the setter calls made ON `A` — whatever was built, configured and evaluated in between -/
+theorem isolation_own (st : Store ι α) (ops : List (MOp ι α)) (A pid : Nat) (p : Params ι α)
+    (hs : Sole st pid A) (hA : st.models[A]? = some pid) (hp : st.params[pid]? = some p)
+    (hn : ∀ op ∈ ops, NotHanded pid op) (pts : List (Point ι α)) :
+    evalModel pw tiny big db (runM pw tiny big eps0 db none st ops).1 A pts
+      = evalParams pw tiny big db (applyAll (ownSettings A ops) p) pts := by
+  rw [isolation pw tiny big eps0 db st ops A pid p hA hp pts,
+    settingsFor_sole pw tiny big eps0 db st ops pid A hs hA (List.getElem?_eq_some_iff.mp hp).1 hn]
+
+/-- **a model built without parameters** (in any well-formed store, i.e. at any moment of any
+history): its evaluations are those of the documented defaults changed by the calls made on it -/
+theorem isolation_default (st : Store ι α) (hwf : WFStore st) (ops : List (MOp ι α))
+    (hn : ∀ op ∈ ops, NotHanded st.params.length op) (pts : List (Point ι α)) :
+    evalModel pw tiny big db (runM pw tiny big eps0 db none st (.newModel none :: ops)).1 st.models.length pts
+      = evalParams pw tiny big db (applyAll (ownSettings st.models.length ops) (defaultParams eps0)) pts := by
+  simp only [runM]
+  apply isolation_own (pid := st.params.length)
+  · intro mid hm
+    simp only [stepM] at hm
+    by_cases hlt : mid < st.models.length
+    · rw [List.getElem?_append_left hlt] at hm
+      have := hwf mid _ hm; omega
+    · have hle := not_lt.mp hlt
+      rcases Nat.eq_or_lt_of_le hle with h0 | h0
+      · exact h0.symm
+      · rw [List.getElem?_append_right hle] at hm
+        have : ([st.params.length] : List Nat)[mid - st.models.length]? = none := by
+          apply List.getElem?_eq_none_iff.mpr; simp; omega
+        rw [this] at hm; cases hm
+  · simp [stepM]
+  · simp [stepM]
+  · exact hn
+
+/-- two histories with the same calls on `A` give the same answers on `A` -/
+theorem isolation_two_histories (st : Store ι α) (hwf : WFStore st) (ops ops' : List (MOp ι α))
+    (hn : ∀ op ∈ ops, NotHanded st.params.length op) (hn' : ∀ op ∈ ops', NotHanded st.params.length op)
+    (hsame : ownSettings st.models.length ops = ownSettings st.models.length ops') (pts : List (Point ι α)) :
+    evalModel pw tiny big db (runM pw tiny big eps0 db none st (.newModel none :: ops)).1 st.models.length pts
+      = evalModel pw tiny big db (runM pw tiny big eps0 db none st (.newModel none :: ops')).1 st.models.length pts := by
+  rw [isolation_default pw tiny big eps0 db st hwf ops hn, isolation_default pw tiny big eps0 db st hwf ops' hn', hsame]
+
+
+/-- a history run in two parts -/
+theorem runM_append (dflt : Option Nat) (st : Store ι α) (l1 l2 : List (MOp ι α)) :
+    runM pw tiny big eps0 db dflt st (l1 ++ l2)
+      = ((runM pw tiny big eps0 db dflt (runM pw tiny big eps0 db dflt st l1).1 l2).1,
+         (runM pw tiny big eps0 db dflt st l1).2 ++ (runM pw tiny big eps0 db dflt (runM pw tiny big eps0 db dflt st l1).1 l2).2) := by
+  induction l1 generalizing st with
+  | nil => simp [runM]
+  | cons op r ih =>
+    simp only [List.cons_append, runM]
+    rw [ih]
+    cases (stepM pw tiny big eps0 db dflt st op).2 <;> simp
+
+/-- … stated on the ANSWER an evaluation of the model returns at the end of the history -/
+theorem isolation_answer (st : Store ι α) (hwf : WFStore st) (ops : List (MOp ι α))
+    (hn : ∀ op ∈ ops, NotHanded st.params.length op) (pts : List (Point ι α)) :
+    (runM pw tiny big eps0 db none st ((.newModel none :: ops) ++ [.eval st.models.length pts])).2.getLast?
+      = some (evalParams pw tiny big db (applyAll (ownSettings st.models.length ops) (defaultParams eps0)) pts) := by
+  rw [runM_append]
+  simp only [runM, stepM, List.getLast?_append, List.getLast?_singleton, Option.some_or]
+  have h := isolation_default pw tiny big eps0 db st hwf ops hn pts
+  simp only [runM, stepM] at h
+  rw [h]
+
+theorem wf_step (st : Store ι α) (hwf : WFStore st) (op : MOp ι α) :
+    WFStore (stepM pw tiny big eps0 db none st op).1 := by
+  intro mid pid hm
+  have hle := (step_length_le pw tiny big eps0 db st op).1
+  by_cases hlt : mid < st.models.length
+  · rw [step_models pw tiny big eps0 db st op mid hlt] at hm
+    exact lt_of_lt_of_le (hwf mid pid hm) hle
+  · cases op with
+    | newParams p =>
+      simp only [stepM] at hm
+      exact absurd (List.getElem?_eq_some_iff.mp hm).1 hlt
+    | newModel arg =>
+      cases arg with
+      | none =>
+        simp only [stepM] at hm ⊢
+        rw [List.getElem?_append_right (not_lt.mp hlt)] at hm
+        have hmem : pid ∈ [st.params.length] := List.mem_of_getElem? hm
+        simp at hmem; subst hmem; simp
+      | some q =>
+        simp only [stepM] at hm ⊢
+        split at hm
+        · rename_i hq
+          rw [List.getElem?_append_right (not_lt.mp hlt)] at hm
+          have hmem : pid ∈ [q] := List.mem_of_getElem? hm
+          simp at hmem; subst hmem; simp [hq]
+        · exact absurd (List.getElem?_eq_some_iff.mp hm).1 hlt
+    | set m s =>
+      simp only [stepM] at hm
+      split at hm
+      · rw [setAt_models] at hm; exact absurd (List.getElem?_eq_some_iff.mp hm).1 hlt
+      · exact absurd (List.getElem?_eq_some_iff.mp hm).1 hlt
+    | setP q s =>
+      simp only [stepM, setAt_models] at hm
+      exact absurd (List.getElem?_eq_some_iff.mp hm).1 hlt
+    | eval m pts =>
+      simp only [stepM] at hm
+      exact absurd (List.getElem?_eq_some_iff.mp hm).1 hlt
+
+theorem wf_run (st : Store ι α) (hwf : WFStore st) (ops : List (MOp ι α)) :
+    WFStore (runM pw tiny big eps0 db none st ops).1 := by
+  induction ops generalizing st with
+  | nil => simpa [runM] using hwf
+  | cons op r ih => simp only [runM]; exact ih _ (wf_step pw tiny big eps0 db st hwf op)
+
+/-- **two models built without parameters never hold the same object**, whatever happens between
+the two constructions -/
+theorem default_objects_distinct (st : Store ι α) (ops : List (MOp ι α)) :
+    let s2 := (runM pw tiny big eps0 db none st (.newModel none :: ops)).1
+    let s3 := (stepM pw tiny big eps0 db none s2 (.newModel none)).1
+    s3.models[st.models.length]? = some st.params.length ∧
+    s3.models[s2.models.length]? = some s2.params.length ∧
+    st.params.length ≠ s2.params.length := by
+  intro s2 s3
+  have hs1 : (stepM pw tiny big eps0 db none st (.newModel none)).1
+      = { params := st.params ++ [defaultParams eps0], models := st.models ++ [st.params.length] } := by
+    simp [stepM]
+  have hlen := run_length_le pw tiny big eps0 db (stepM pw tiny big eps0 db none st (.newModel none)).1 ops
+  have hA : s2.models[st.models.length]? = some st.params.length := by
+    show (runM pw tiny big eps0 db none st (.newModel none :: ops)).1.models[st.models.length]? = _
+    simp only [runM]
+    rw [run_models _ _ _ _ _ _ _ _ (by rw [hs1]; simp)]
+    rw [hs1]; simp
+  have hl2 : st.models.length < s2.models.length ∧ st.params.length < s2.params.length := by
+    have : s2 = (runM pw tiny big eps0 db none (stepM pw tiny big eps0 db none st (.newModel none)).1 ops).1 := by
+      simp [s2, runM]
+    rw [this]; rw [hs1] at hlen ⊢; simp at hlen; omega
+  refine ⟨?_, ?_, by omega⟩
+  · show (stepM pw tiny big eps0 db none s2 (.newModel none)).1.models[st.models.length]? = _
+    rw [step_models pw tiny big eps0 db s2 _ _ hl2.1]; exact hA
+  · show (stepM pw tiny big eps0 db none s2 (.newModel none)).1.models[s2.models.length]? = _
+    simp [stepM]
+
+end objects
+
+/-! ### witnesses: ONE default object made at import time couples unrelated models; an object the
+user hands to two models couples them too (so the hypothesis `NotHanded` is needed) -/
+
+/-- models 0 and 1 are both built without parameters; model 1 is told to exclude phase B -/
+def wOps : List (MOp Nat Int) :=
+  [.newModel none, .newModel none, .eval 0 [wPt], .set 1 (.post (.exclude [1])), .eval 0 [wPt]]
+
+/-- the code: model 0 answers 38 before and after -/
+theorem fresh_default_isolates :
+    (runM (fun x _ => x) 0 0 0 wDb none (initStore 0 none) wOps).2 = [.ok [[38]], .ok [[38]]] := by
+  decide
+
+/-- the import-time default object: configuring model 1 changes what model 0 returns (38 -> 35) -/
+theorem shared_default_couples :
+    (runM (fun x _ => x) 0 0 0 wDb (some 0) (initStore 0 (some 0)) wOps).2 = [.ok [[38]], .ok [[35]]] := by
+  decide
+
+/-- … and the two models hold the same object there, distinct ones in the code -/
+theorem shared_default_same_object :
+    (runM (fun x _ => x) 0 0 0 wDb (some 0) (initStore 0 (some 0)) wOps).1.models = [0, 0] ∧
+    (runM (fun x _ => x) 0 0 0 wDb none (initStore 0 none) wOps).1.models = [0, 1] := by
+  decide
+
+/-- an object the user passes to both models couples them, in the code as well: `NotHanded` is needed -/
+theorem user_shared_object_couples :
+    (runM (fun x _ => x) 0 0 0 wDb none (initStore 0 none)
+      ([.newParams (defaultParams 0), .newModel (some 0), .newModel (some 0), .eval 0 [wPt],
+        .set 1 (.post (.exclude [1])), .eval 0 [wPt]] : List (MOp Nat Int))).2 = [.ok [[38]], .ok [[35]]] := by
+  decide
+
+/-- non-vacuity: the store of a run from nothing is well formed, and a history in which a second model is
+built, configured and evaluated meets the hypothesis of `isolation_default` for the first one -/
+example : WFStore (runM (fun x _ => x) 0 0 0 wDb none (initStore (0 : ℚ) none)
+    ([.newParams (defaultParams 0), .newModel (some 0)] : List (MOp Nat ℚ))).1 :=
+  wf_run _ _ _ _ _ _ (wf_init 0) _
+
+example : ∀ op ∈ ([.newModel none, .set 1 (.rule .hashinLower), .set 1 (.factor 2), .eval 1 [], .eval 0 []] : List (MOp Nat ℚ)),
+    NotHanded 0 op := by
+  intro op h
+  simp only [List.mem_cons, List.mem_nil_iff, or_false] at h
+  rcases h with rfl | rfl | rfl | rfl | rfl <;> simp [NotHanded]
+
 end KawinV.Props.C17
